@@ -28,7 +28,7 @@ static void one_A(int si, int li, unsigned A, struct res *r, long x) {
     polyseed_str phA, ph0; uint8_t st0[32], stm[32]; polyseed_store(s, st0); ref_storage(&SEEDS[si], stm);
     if (memcmp(st0, stm, 32)) { res_viol(r, "c05:setup-seed", "", "the seed under test (made by %s) does not serialise to the model seed", (A & 3) == 1 ? "create" : "load"); polyseed_free(s); ledger_drop_all(); return; }
     /* the phrase for A restores under exactly the seed's own user features, too (nothing else is needed to read it back) */
-    { polyseed_str pm; polyseed_encode(s, lang, (polyseed_coin)A, pm); polyseed_enable_features(SEEDS[si].features & 7); polyseed_data *dm = NULL; int sm = polyseed_decode_explicit(pm, (polyseed_coin)A, lang, &dm); polyseed_enable_features(7); r->calls += 2;
+    { polyseed_str pm; polyseed_encode(s, lang, (polyseed_coin)A, pm); polyseed_enable_features((SEEDS[si].features & 7) | ((A & 32) ? 0xFFFFFFF8u : (A & 64) ? 0x10u : 0)); polyseed_data *dm = NULL; int sm = polyseed_decode_explicit(pm, (polyseed_coin)A, lang, &dm); polyseed_enable_features((A & 16) ? 0xFFFFFFFFu : 7); r->calls += 2;   /* "only the least significant 3 bits are used": the argument's other bits vary with the coin and change nothing */
       if (sm == POLYSEED_OK) polyseed_free(dm); else { char rp[120], hh[40]; hex(SEEDS[si].secret, 19, hh); sprintf(rp, "case %s %u %u %d %u %u", hh, SEEDS[si].birthday, SEEDS[si].features, li, A, A); res_viol(r, "c05:samecoin-own-features", rp, "phrase for coin %u decoded for the same coin with exactly the seed's user features enabled: status %d", A, sm); } }
     polyseed_encode(s, lang, (polyseed_coin)A, phA); polyseed_encode(s, lang, 0, ph0); r->calls += 3;
     char rep[200], key[100], h[40]; hex(SEEDS[si].secret, 19, h);
@@ -74,7 +74,7 @@ static void one_A(int si, int li, unsigned A, struct res *r, long x) {
             if (st != want) { sprintf(rep, "case %s %u %u %d %u %u", h, SEEDS[si].birthday, SEEDS[si].features, li, A, B); snprintf(key, sizeof key, "c05:wrongcoin-disabled-feature:%s", RL[li].code); res_viol(r, key, rep, "phrase for coin %u with user features %u, none enabled, decoded for coin %u returned %d (expected %d)", A, SEEDS[si].features & 7, B, st, want); break; }
             r->validated++; r->cls[B == A ? 1 : 0]++;
         }
-        polyseed_enable_features(7);
+        polyseed_enable_features((A & 16) ? 0xFFFFFFFFu : 7);
     }
     polyseed_free(s);
     if (ledger_live()) { res_viol(r, "c05:leak", "", "ledger not empty"); ledger_drop_all(); }
